@@ -12,3 +12,4 @@ import SnowProofs.Props.GenTie.Snowing0D
 import SnowProofs.Props.GenTie.Flake
 import SnowProofs.Props.GenTie.Snowing1D
 import SnowProofs.Props.GenTie.Evap
+import SnowProofs.Props.GenTie.Snowing2D
